@@ -246,6 +246,12 @@ func runC15(res *Result, d *Driver, tier string, seed uint64) {
 		"sys 437 fdcwd64 s:/etc/passwd bad 24;exit 0",
 		"sys 437 fdcwd64 s:/etc/passwd kern 24;exit 0",
 		"sys 437 fdcwd64 bad bad 24;exit 0",
+		// openat2 with every size of the open_how block a program can claim (the kernel rejects the short ones itself)
+		"sys 437 fdcwd64 s:/etc/passwd s:AAAAAAAAAAAAAAAAAAAAAAAAAAAAAAAA 0;sys 437 fdcwd64 s:/etc/passwd s:AAAAAAAAAAAAAAAAAAAAAAAAAAAAAAAA 4;exit 0",
+		"sys 437 fdcwd64 s:/etc/passwd s:AAAAAAAAAAAAAAAAAAAAAAAAAAAAAAAA 8;sys 437 fdcwd64 s:/etc/passwd s:AAAAAAAAAAAAAAAAAAAAAAAAAAAAAAAA 12;exit 0",
+		"sys 437 fdcwd64 s:/etc/passwd s:AAAAAAAAAAAAAAAAAAAAAAAAAAAAAAAA 20;sys 437 fdcwd64 s:/etc/passwd s:AAAAAAAAAAAAAAAAAAAAAAAAAAAAAAAA 23;exit 0",
+		"sys 437 fdcwd64 s:/etc/passwd s:AAAAAAAAAAAAAAAAAAAAAAAAAAAAAAAA 25;sys 437 fdcwd64 s:/etc/passwd s:AAAAAAAAAAAAAAAAAAAAAAAAAAAAAAAA 0x100000;sys 437 fdcwd64 s:/etc/passwd s:AAAAAAAAAAAAAAAAAAAAAAAAAAAAAAAA 0xffffffffffffffff;exit 0",
+		"sys 437 fdcwd64 s:/etc/passwd nonul:8 24;sys 437 fdcwd64 s:/etc/passwd nonul:20 24;exit 0",
 		"sys 59 bad bad bad;exit 0",
 		"sys 322 0xffffffff bad bad bad 0;exit 0",
 		"sys 82 bad bad;exit 0",
